@@ -29,6 +29,9 @@ def use_repo():
         raise RuntimeError('oslo_policy imported from %s, wanted %s' % (got, REPO))
     import logging
     logging.disable(logging.CRITICAL)
+    lg = logging.getLogger('oslo_policy')        # some tools re-enable logging: keep it off the console
+    lg.addHandler(logging.NullHandler())
+    lg.propagate = False
     import warnings
     warnings.simplefilter('ignore')
 
